@@ -34,7 +34,9 @@ def device_part(run, quick: bool) -> None:
         hs = devcheck.generate(dev, "quick", 2, run)
         # keep histories whose numeric arguments stay meaningful under the routing's +1 / -2 variations
         hs = devcheck.sample(hs, 36 if quick else 240, run.seed)
-        jobs = [(dev, hs[i:i + PACK], r, i) for r in fw_act.ROUTINGS for i in range(0, len(hs), PACK)]
+        # (the literal rendering is a routing of its own here: it spells some integer-valued arguments as name-free expressions
+        #  with a fractional value, which the transpiler may fold - to int(value), as the host class and the emitted C++ do)
+        jobs = [(dev, hs[i:i + PACK], r, i) for r in ("lit",) + fw_act.ROUTINGS for i in range(0, len(hs), PACK)]
         with cf.ProcessPoolExecutor(max_workers=NCPU) as ex:
             results = list(ex.map(_job, [(j[0], j[1], j[2]) for j in jobs], chunksize=1))
             singles = [(dev, [h], r, base + k) for (d, part, r, base), res in zip(jobs, results) if "traces" not in res for k, h in enumerate(part)]
